@@ -52,7 +52,15 @@ claim("C17", "actor-goroutine closure over the VTA call graph (interpreter dispa
       "current scope; (R17d) no unchecked map-miss dereference; (R17e) every evaluation on the actor is under a recover; (R17f) no blocking send to a "
       "client-owned channel; (R17g) no goroutine spawned from the loop (serial delivery). Ordering/fairness between concurrent clients is not decided.", NOTE, "DESIGN.md §3 C17")
 
-for pid in ["C02","C04","C05","C07","C09","C10","C11","C12","C13","C15","C16","C18"]:
+claim("C11", "guarded-by analysis (must-hold lockset dataflow, sync.Once Do-closure / dominance), purity of callbacks passed to concurrent frozen APIs and across goroutines, condition-variable wake-up rule",
+      "Decides the synchronisation conventions on every path: (R11a) callbacks handed to frozen APIs that fan out over goroutines write no "
+      "captured/package state outside a lock; (R11b) 15 inferred guard pairs - every Once-initialised cell is written only in its Do closure and "
+      "read only after Do, every mutex-guarded cell is accessed only with the mutex held, every declared Mutex/Once is used, unsynchronised "
+      "package-variable writes are limited to an audited start-up list; (R11c) state changes that waiters wait for are followed by a Broadcast; "
+      "(R11d) observer callbacks (run on the engine goroutine) write no captured variable; (R11e) a guarded resource is not used after its lock "
+      "is released. Races inside dependencies and serial equivalence of results are not decided.", NOTE, "DESIGN.md §3 C11")
+
+for pid in ["C02","C04","C05","C07","C09","C10","C12","C13","C15","C16","C18"]:
     na(pid, "check under construction in this session (see DESIGN.md §3); not claimed until its rules are registered")
 na("C14", "agreement of a hand-written array matcher with strings/bytes over all sequences is a relation between runtime values computed by "
           "loops with data-dependent indices; no sound structural clause with teeth exists (DESIGN.md §3 C14)")
